@@ -62,8 +62,8 @@ def method_sig(name, params, ret):
 RET_VALUES = {"uint64": 12345, "string": b"ret", repr(["tuple", "uint64", "string"]): [7, b"xy"], "bool": True}
 
 
-def build_method(name, params, ret):
-    names = ["a%d" % i for i in range(len(params))]
+def build_method(name, params, ret, argnames=None, raw=False):
+    names = list(argnames) if argnames else ["a%d" % i for i in range(len(params))]
     ann = {}
     for nm, k in zip(names, params):
         if is_txn(k):
@@ -103,6 +103,8 @@ def build_method(name, params, ret):
     exec(src, ns)
     fn = ns[name]
     fn.__annotations__ = ann
+    if raw:
+        return fn
     return pt.ABIReturnSubroutine(fn)
 
 
@@ -207,12 +209,19 @@ def check_case(case, out, versions):
     cnt, oc = out["counters"], out["outcomes"]
     params, ret = case["params"], case.get("ret")
     name = case.get("name", "meth")
-    sig = method_sig(name, params, ret)
+    override = case.get("override")          # name given at registration instead of the Python function's
+    argnames = case.get("argnames") or ["a%d" % i for i in range(len(params))]
+    sig = method_sig(override or name, params, ret)
     for ver in versions:
         try:
             router = pt.Router("r", pt.BareCallActions(no_op=pt.OnCompleteAction.create_only(pt.Approve())),
                                clear_state=pt.Approve())
-            router.add_method_handler(build_method(name, params, ret))
+            if case.get("via") == "decorator":
+                router.method(name=override)(build_method(name, params, ret, argnames, raw=True))
+            elif override is not None:
+                router.add_method_handler(build_method(name, params, ret, argnames), overriding_name=override)
+            else:
+                router.add_method_handler(build_method(name, params, ret, argnames))
             approval, clear, contract = router.compile_program(version=ver)
         except drive.PT_ERRORS as e:
             oc["rejected"] = oc.get("rejected", 0) + 1
@@ -231,6 +240,13 @@ def check_case(case, out, versions):
             out["violations"].append({"driver": "contract", "size": len(params),
                                       "title": "contract lists %r (selectors %r) but the program dispatches on %r; expected %r" % (
                                           csigs, [s.hex() for s in csels], [s.hex() for s in teal_selectors(approval)], sig),
+                                      "case": case, "version": ver,
+                                      "features": {"why": "contract", "override": override is not None,
+                                                   "positional_output": "output" in argnames}})
+        elif [a.name for a in contract.methods[0].args] != list(argnames):
+            out["violations"].append({"driver": "contract", "size": len(params),
+                                      "title": "contract names the arguments of %s %r, the method declares %r" % (
+                                          sig, [a.name for a in contract.methods[0].args], list(argnames)),
                                       "case": case, "version": ver, "features": {"why": "contract"}})
         pa = asm.assemble(approval)
         for variant in (0, 1):
@@ -362,13 +378,33 @@ def cases(tier):
     return res
 
 
+def contract_cases():
+    """naming: the name under which a method is registered (the Python function's, or an overriding one, through
+    add_method_handler and through @router.method(name=...)) x parameter-name alphabets (positional names that
+    collide with PyTeal's reserved keyword names) x parameter lists of length <= 2; the contract must list what
+    the program dispatches on"""
+    out = []
+    name_alphabets = {1: [["a0"], ["output"], ["self"], ["args"]], 2: [["a0", "a1"], ["output", "a1"], ["a0", "output"], ["ret", "return_"]]}
+    for override in (None, "other", "meth2"):
+        for via in ("handler", "decorator"):
+            out.append({"params": [], "ret": "uint64", "override": override, "via": via})
+            for n in (1, 2):
+                for p in itertools.product(("uint64", "string"), repeat=n):
+                    for names in name_alphabets[n]:
+                        for ret in (None, "uint64"):
+                            if ret is not None and "output" in names:
+                                continue    # Python itself forbids two parameters of one name
+                            out.append({"params": list(p), "ret": ret, "override": override, "via": via, "argnames": names})
+    return out
+
+
 def run(tier):
     global _VERSIONS
     rep = common.Report(PID, tier)
     rep.rule = ("every method signature of the enumerated families (a state) x 2 value variants (+ a wrong-transaction-type "
                 "variant) x versions; groups built by algosdk's AtomicTransactionComposer")
     _VERSIONS = (6, 8, 10) if tier == "quick" else (6, 7, 8, 9, 10)
-    items = cases(tier)
+    items = cases(tier) + contract_cases()
     rep.bounds["signatures"] = len(items)
     rep.bounds["versions"] = list(_VERSIONS)
     for sh in common.pmap_shards(_worker, items, shard_size=3, order_seed=rep.seed):
